@@ -6,6 +6,7 @@ import (
 	"encoding/json"
 	"fmt"
 	"math/big"
+	"os"
 	"sort"
 	"strings"
 	"sync"
@@ -48,6 +49,10 @@ type txSpec struct {
 	High     bool     // HighPriority attribute
 	Confl    []string // names of (earlier) txs named by Conflicts attributes
 	Oracle   int      // oracle response id, 0 = none
+	// fee relative to the serialized size (fpb_test.go): if Q != 0 the network fee is
+	// Q*size + R (+ size/2 with RHalf), size being the size of this very transaction.
+	Q, R  int64
+	RHalf bool
 }
 
 type opKind int
@@ -73,6 +78,7 @@ type scenario struct {
 	Bal    map[string]int64 // initial balances by payer name ("S1", "N/D1")
 	Caps   []int
 	Blocks []op
+	Order  []string // fpb families: the strict priority chain the alphabet was designed to have (checked at build time with the independent key)
 	txs    []*transaction.Transaction
 	ops    []op
 }
@@ -103,37 +109,52 @@ func payerOf(t *transaction.Transaction) pkey {
 func (sc *scenario) build() {
 	byName := map[string]*transaction.Transaction{}
 	for i, s := range sc.Txs {
-		script := []byte{byte(opcode.PUSH1)}
-		if s.Big {
-			script = make([]byte, 400)
-			for j := range script {
-				script[j] = byte(opcode.NOP)
+		mk := func(net int64) *transaction.Transaction {
+			script := []byte{byte(opcode.PUSH1)}
+			if s.Big {
+				script = make([]byte, 400)
+				for j := range script {
+					script[j] = byte(opcode.NOP)
+				}
 			}
-		}
-		for j := 0; j < s.Pad; j++ {
-			script = append(script, byte(opcode.NOP))
-		}
-		t := transaction.New(script, s.Sys)
-		t.Nonce = uint32(1000 + i)
-		t.NetworkFee = s.Net
-		t.ValidUntilBlock = 100
-		for _, a := range s.Signers {
-			t.Signers = append(t.Signers, transaction.Signer{Account: acc(a)})
-			t.Scripts = append(t.Scripts, transaction.Witness{InvocationScript: []byte{}, VerificationScript: []byte{}})
-		}
-		if s.High {
-			t.Attributes = append(t.Attributes, transaction.Attribute{Type: transaction.HighPriority})
-		}
-		for _, c := range s.Confl {
-			ct, ok := byName[c]
-			if !ok {
-				panic("conflict target must be defined earlier: " + c)
+			for j := 0; j < s.Pad; j++ {
+				script = append(script, byte(opcode.NOP))
 			}
-			t.Attributes = append(t.Attributes, transaction.Attribute{Type: transaction.ConflictsT, Value: &transaction.Conflicts{Hash: ct.Hash()}})
+			t := transaction.New(script, s.Sys)
+			t.Nonce = uint32(1000 + i)
+			t.NetworkFee = net
+			t.ValidUntilBlock = 100
+			for _, a := range s.Signers {
+				t.Signers = append(t.Signers, transaction.Signer{Account: acc(a)})
+				t.Scripts = append(t.Scripts, transaction.Witness{InvocationScript: []byte{}, VerificationScript: []byte{}})
+			}
+			if s.High {
+				t.Attributes = append(t.Attributes, transaction.Attribute{Type: transaction.HighPriority})
+			}
+			for _, c := range s.Confl {
+				ct, ok := byName[c]
+				if !ok {
+					panic("conflict target must be defined earlier: " + c)
+				}
+				t.Attributes = append(t.Attributes, transaction.Attribute{Type: transaction.ConflictsT, Value: &transaction.Conflicts{Hash: ct.Hash()}})
+			}
+			if s.Oracle != 0 {
+				t.Attributes = append(t.Attributes, transaction.Attribute{Type: transaction.OracleResponseT, Value: &transaction.OracleResponse{ID: uint64(s.Oracle), Code: transaction.Success, Result: []byte{}}})
+			}
+			return t
 		}
-		if s.Oracle != 0 {
-			t.Attributes = append(t.Attributes, transaction.Attribute{Type: transaction.OracleResponseT, Value: &transaction.OracleResponse{ID: uint64(s.Oracle), Code: transaction.Success, Result: []byte{}}})
+		net := s.Net
+		if s.Q != 0 {
+			// the fee is fixed-width in the encoding, so the size does not depend on it; a throw-away
+			// copy is measured because Size() and Hash() are cached inside the transaction.
+			size := int64(mk(0).Size())
+			net = s.Q*size + s.R
+			if s.RHalf {
+				net += size / 2
+			}
+			sc.Txs[i].Net = net
 		}
+		t := mk(net)
 		_ = t.Hash()
 		_ = t.Size()
 		byName[s.Name] = t
@@ -146,6 +167,7 @@ func (sc *scenario) build() {
 		sc.ops = append(sc.ops, op{Kind: opRemove, Tx: i, Name: "Remove(" + s.Name + ")"})
 	}
 	sc.ops = append(sc.ops, sc.Blocks...)
+	sc.checkOrder(byName)
 }
 
 func scenarios() []*scenario {
@@ -263,6 +285,27 @@ func scenarios() []*scenario {
 	}
 	// the families for additions with overlapping side effects go FIRST (sharpest, see overlap_test.go)
 	scs = append(overlapScenarios(), scs...)
+	// ...after the families whose fee-per-byte / network-fee keys sit at the rounding and width boundaries (fpb_test.go)
+	scs = append(fpbScenarios(), scs...)
+	if only := os.Getenv("C08_ONLY"); only != "" { // development aid: "fpb,fee-width" keeps, "!fpb,!fee-width" drops families by substring
+		var kept []*scenario
+		for _, s := range scs {
+			keep, sawPos := false, false
+			drop := false
+			for _, w := range strings.Split(only, ",") {
+				if strings.HasPrefix(w, "!") {
+					drop = drop || strings.Contains(s.Name, w[1:])
+				} else {
+					sawPos = true
+					keep = keep || strings.Contains(s.Name, w)
+				}
+			}
+			if !drop && (keep || !sawPos) {
+				kept = append(kept, s)
+			}
+		}
+		scs = kept
+	}
 	for _, s := range scs {
 		s.build()
 	}
@@ -455,28 +498,46 @@ func (in *inst) observe() (obs string, broken string) {
 	return b.String(), broken
 }
 
+// cmpPrio is the INDEPENDENT order key of the property: (HighPriority attribute,
+// fee per byte, network fee). It is computed from the three public facts of a
+// transaction only - the attribute, NetworkFee and the serialized size - and
+// uses nothing of the pool (not item.Compare) and not transaction.FeePerByte():
+// the fee per byte is the INTEGER NetworkFee / size the Feer's policy value is
+// compared with (floored, so 593/54 and 1100/110 are both 10).
 func cmpPrio(a, b *transaction.Transaction) int {
-	ah, bh := a.HasAttribute(transaction.HighPriority), b.HasAttribute(transaction.HighPriority)
+	ah, bh := isHigh(a), isHigh(b)
 	if ah != bh {
 		if ah {
 			return 1
 		}
 		return -1
 	}
-	if d := a.FeePerByte() - b.FeePerByte(); d != 0 {
-		if d > 0 {
+	if fa, fb := fpbOf(a), fpbOf(b); fa != fb {
+		if fa > fb {
 			return 1
 		}
 		return -1
 	}
-	if d := a.NetworkFee - b.NetworkFee; d != 0 {
-		if d > 0 {
+	if a.NetworkFee != b.NetworkFee {
+		if a.NetworkFee > b.NetworkFee {
 			return 1
 		}
 		return -1
 	}
 	return 0
 }
+
+func isHigh(t *transaction.Transaction) bool {
+	for i := range t.Attributes {
+		if t.Attributes[i].Type == transaction.HighPriority {
+			return true
+		}
+	}
+	return false
+}
+
+// fpbOf: integer fee per byte (Go's / truncates; fees and sizes are positive).
+func fpbOf(t *transaction.Transaction) int64 { return t.NetworkFee / int64(t.Size()) }
 
 // related: does adding t justify removing o (Conflicts either way or same oracle id)?
 func related(t, o *transaction.Transaction) bool {
@@ -622,6 +683,7 @@ func (e *explorer) node(seq []int, deferProbe bool) (bool, childEval) {
 		jKind, jExtra, class = judgeAdd(sc, e.cap, in.f.bal, before, last.Tx, r, after)
 		if !quiet {
 			e.fam.add(sc, e.cap, before, last.Tx, r, class)
+			e.fam.fpb(sc, e.cap, before, last.Tx, r, after)
 		}
 	}
 	switch {
@@ -932,9 +994,12 @@ func TestCheck(t *testing.T) {
 		"scenarios":                     alpha,
 	}
 	fam.export(cov)
+	fpbStatic(scs, cov)
 	r.Finish(cov, []string{
 		"balances change only together with RemoveStale (as on a real node, where both happen at block acceptance)",
 		"ties in (priority, fee per byte, network fee) may be ordered and evicted either way",
+		"fee per byte is the integer NetworkFee / serialized size (the quantity the Feer's policy value is compared with); the order key of the oracle is computed from the HighPriority attribute, NetworkFee and Size() only",
+		"a refresh is not required to drop a transaction whose fee per byte is below the policy value (only forbidden to drop one that is not)",
 		"the search runs on the implementation itself: every transition is a call into pkg/core/mempool",
 	})
 }
